@@ -34,7 +34,7 @@
             elements whose line-height is `normal` are skipped: the font decides)
           9 the implementation panicked and so does the model (C04_get_total says the
             model does not: the case is outside its hypotheses, e.g. ill-typed) *)
-From Verif Require Export Css.Defaulting Css.DefaultingSpec Css.DefaultingTyping.
+From Verif Require Export Css.Defaulting Css.DefaultingCopy Css.DefaultingSpec Css.DefaultingTyping.
 From Coq Require Import QArith ZArith NArith List String Bool.
 Import ListNotations.
 Open Scope N_scope.
@@ -42,7 +42,8 @@ Open Scope N_scope.
 Inductive gres := ROk (v : value) | RPanic.
 Inductive hop :=
 | G (n p : N) (r : gres)        (* style(n).Get(p) returned r *)
-| K (n : N) (ok : bool).        (* the style object of node n was constructed *)
+| K (n : N) (ok : bool)         (* the style object of node n was constructed *)
+| C (src dst : N) (ok : bool).  (* style(dst) := style(src).Copy(); node dst is a duplicate of node src *)
 
 (* one entry of the runtime tables *)
 Inductive tab :=
@@ -111,7 +112,51 @@ Fixpoint run_hist (t : tree) (st : styles) (ops : list hop) : N :=
       | Panic _, true => 4
       | OutOfFuel, _ => 6
       end
+  | C src dst ok :: rest =>
+      let '(st', m) := copy_style f32 true t st src dst in
+      match m, ok with
+      | Ok _, true => run_hist t st' rest
+      | Panic _, false => 9
+      | Ok _, false => 3
+      | Panic _, true => 4
+      | OutOfFuel, _ => 6
+      end
   end.
+
+(* a copy is built from the same inputs as its source: the two nodes are duplicates *)
+Definition presult_eqb (a b : presult) : bool :=
+  match a, b with
+  | PErr, PErr | PInherit, PInherit | PInitial, PInitial => true
+  | PVal v, PVal w => value_eqb v w
+  | _, _ => false
+  end.
+Definition casc_eqb (a b : casc) : bool :=
+  match a, b with
+  | CInherit, CInherit | CInitial, CInitial => true
+  | CExplicit v, CExplicit w => value_eqb v w
+  | CPending x, CPending y => presult_eqb x y
+  | _, _ => false
+  end.
+Fixpoint list_eqb {A} (f : A -> A -> bool) (l1 l2 : list A) : bool :=
+  match l1, l2 with
+  | [], [] => true
+  | a :: r1, b :: r2 => f a b && list_eqb f r1 r2
+  | _, _ => false
+  end.
+Definition node_eqb (a b : node) : bool :=
+  match n_parent a, n_parent b with Some i, Some j => i =? j | None, None => true | _, _ => false end
+  && match n_kind a, n_kind b with KElem, KElem | KAnon, KAnon => true | _, _ => false end
+  && list_eqb (fun x y => let 'D p c := x in let 'D q d := y in (p =? q) && casc_eqb c d) (n_decls a) (n_decls b)
+  && list_eqb (fun x y => let 'Orc p v := x in let 'Orc q w := y in (p =? q) && value_eqb v w) (n_oracle a) (n_oracle b)
+  && match n_metrics a, n_metrics b with
+     | Some m, Some m' => Qeq_bool (m_ex m) (m_ex m') && Qeq_bool (m_ch m) (m_ch m')
+     | None, None => true | _, _ => false end.
+Definition copies_ok (t : tree) (ops : list hop) : bool :=
+  forallb (fun o => match o with
+                    | C src dst _ => match node_at t src, node_at t dst with
+                                     | Some a, Some b => node_eqb a b && negb (src =? dst)
+                                     | _, _ => false end
+                    | _ => true end) ops.
 
 Definition len {A} (l : list A) : N := N.of_nat (List.length l).
 Definition nth_fsk (i : N) : option (string * (Q * Q)) := nth_error font_size_keywords (N.to_nat i).
@@ -176,7 +221,7 @@ Definition valign_audit (t : tree) : bool :=
 Definition check (c : case) : N :=
   match c with
   | CDoc t ops chg =>
-      if wf_tree t then
+      if wf_tree t && copies_ok t ops then
         match chg with
         | _ :: _ => 11
         | [] =>
@@ -222,6 +267,12 @@ Fixpoint first_bad (t : tree) (st : styles) (ops : list hop) (i : N) : mout :=
       match m, ok with
       | Ok _, true | Panic _, false => first_bad t st' rest (N.succ i)
       | _, _ => MBad i (K n ok) (res_map (fun _ => None) m)
+      end
+  | C src dst ok :: rest =>
+      let '(st', m) := copy_style f32 true t st src dst in
+      match m, ok with
+      | Ok _, true | Panic _, false => first_bad t st' rest (N.succ i)
+      | _, _ => MBad i (C src dst ok) (res_map (fun _ => None) m)
       end
   end.
 
